@@ -39,13 +39,14 @@ MergeOf(t) == {[kind |-> "merge", t |-> t, regs |-> SetToSeq(r), customs |-> Set
 
 \* tolerant decoding: field kind x JSON form
 Forms == [ aud     |-> {"string", "array", "emptyarray", "null", "number", "object", "bool", "arrayNonString", "nestedArray"},
-           time    |-> {"number", "float", "negnumber", "rfc3339", "badstring", "null", "bool", "object", "array", "bigfloat", "numericString"},
+           \* rfc3339*: the same instant written with a numeric zone offset, with a fraction of a second, with both
+           time    |-> {"number", "float", "negnumber", "rfc3339", "rfc3339Offset", "rfc3339Frac", "rfc3339FracOffset", "rfc3339FracNegOffset", "badstring", "null", "bool", "object", "array", "bigfloat", "numericString"},
            locale  |-> {"tag", "emptyString", "unknownTag", "unknownSubtag", "unknownScript", "unknownLang", "malformedTag", "number", "null", "object"},
            locales |-> {"spaceDelimited", "array", "withUnknown", "emptyString", "null", "number", "object", "arrayNonString"},
            bool    |-> {"true", "stringTrue", "false", "stringFalse", "stringOther", "number", "null", "object"},
            sda     |-> {"string", "single", "emptyString", "array", "null", "number"} ]
 Documented == [ aud     |-> {"string", "array"},
-                time    |-> {"number", "float", "negnumber", "rfc3339"},
+                time    |-> {"number", "float", "negnumber", "rfc3339", "rfc3339Offset", "rfc3339Frac", "rfc3339FracOffset", "rfc3339FracNegOffset"},
                 locale  |-> {"tag"},
                 locales |-> {"spaceDelimited", "array", "withUnknown"},
                 bool    |-> {"true", "stringTrue"},
@@ -53,7 +54,11 @@ Documented == [ aud     |-> {"string", "array"},
 DecodeCases == UNION {{[kind |-> "decode", field |-> f, form |-> x] : x \in Forms[f]} : f \in DOMAIN Forms}
 
 Plains == {"empty", "idsub", "colons", "multiblock", "utf8", "long"}
-SealCases == {[kind |-> "seal", plain |-> p, key |-> k, via |-> v] : p \in Plains, k \in {"same", "bitflip", "other"}, v \in {"crypto", "op"}}
+\* before: what was opened before the observed Open(s, k'): nothing, the very same sealed string under the key that sealed it, or under
+\* yet another key (two providers / tenants with different keys in one process, a key rotation).  Opening is a function of the
+\* sealed string and the key - not of what was opened before; the rules do not mention it.
+SealCases == {[kind |-> "seal", plain |-> p, key |-> k, via |-> v, before |-> b] : p \in Plains, k \in {"same", "bitflip", "other"}, v \in {"crypto", "op"},
+                b \in {"nothing", "sameStringRightKey", "sameStringThirdKey"}}
 
 \* endpoint: the two documents the provider itself encodes from an object the storage filled (userinfo, introspection), on either router:
 \* what the storage stated - registered fields and custom claims - is what the HTTP answer contains ("active" is the provider's own)
